@@ -1344,25 +1344,43 @@ class Body:
 
     def sources(self, operand, max_nodes=4000, stop_at_calls=True, transparent=TRANSPARENT, stop_bin=(), collect=None):
         """Set of primitive sources an operand may derive from:
-        ('const', value, constdesc) ('arg', local) ('call', Call) ('field', Path) ('local', n)"""
+        ('const', value, constdesc) ('arg', local) ('call', Call) ('field', Path) ('local', n)
+        A component of a value that was put together from parts (`header.node_len` of `Some(FrameHeader { id, node_len, .. })`, `pair.1`) derives from
+        the part that was put there, not from its neighbours."""
         out = []
         seen = set()
         work = []
 
-        def push_op(op):
+        def comp_path(projs):
+            # the components a projection selects: ("f", index) / ("d", variant name); None when it cannot be followed (an index, ..)
+            cp = []
+            for x in projs:
+                if x == "*":
+                    continue
+                if isinstance(x, list) and x and x[0] == "f" and isinstance(x[1], int):
+                    cp.append(("f", x[1]))
+                elif isinstance(x, list) and x and x[0] == "d":
+                    cp.append(("d", x[1]))
+                else:
+                    return None
+            return tuple(cp)
+
+        def push_op(op, rest=()):
             if op[0] == "k":
                 out.append(("const", const_value(op[1]), op[1]))
             elif op[0] in ("c", "m"):
-                push_place(op[1])
+                push_place(op[1], rest)
 
-        def push_place(p):
-            key = (p[0], json.dumps(p[1]))
+        def push_place(p, rest=()):
+            own = comp_path(p[1])
+            path = None if own is None or rest is None else own + tuple(rest)
+            key = (p[0], json.dumps(p[1]), path)
             if key in seen:
                 return
             seen.add(key)
             if collect is not None:
                 collect.add(p[0])
-            work.append(p)
+            work.append((p, path))
 
         push_op(operand)
         n = 0
@@ -1371,7 +1389,7 @@ class Body:
             if n > max_nodes:
                 out.append(("overflow",))
                 break
-            p = work.pop()
+            p, path = work.pop()
             local = p[0]
             if place_fields(p):
                 out.append(("field", self.resolve(p)))
@@ -1386,10 +1404,19 @@ class Body:
                 if d[0] in ("assign", "part"):
                     rv = d[3] if d[0] == "assign" else d[4]
                     k = rv[0]
+                    # a partial assignment (`x.f = ..`) contributes to the component it writes only
+                    sub = path if d[0] == "assign" else ()
+                    if d[0] == "part" and path:
+                        wp = comp_path(d[3][1])
+                        if wp is not None:
+                            m_ = min(len(wp), len(path))
+                            if wp[:m_] != path[:m_]:
+                                continue       # writes a different component than the one looked into
+                            sub = path[len(wp):] if len(wp) <= len(path) else ()
                     if k == "use":
-                        push_op(rv[1])
+                        push_op(rv[1], sub)
                     elif k in ("ref",):
-                        push_place(rv[2])
+                        push_place(rv[2], sub)
                     elif k == "rawptr":
                         push_place(rv[1])
                     elif k == "cast":
@@ -1404,8 +1431,21 @@ class Body:
                         out.append(("un", rv[1]))
                         push_op(rv[2])
                     elif k == "agg":
-                        for o in rv[2]:
-                            push_op(o)
+                        sel = None
+                        if sub:
+                            q = list(sub)
+                            meta = rv[1] if isinstance(rv[1], dict) else {}
+                            if q and q[0][0] == "d":
+                                if "variant" in meta and meta.get("variant") != q[0][1]:
+                                    continue       # another variant than the one looked into: this definition is not where the component comes from
+                                q = q[1:]
+                            if q and q[0][0] == "f" and q[0][1] < len(rv[2]):
+                                sel = (rv[2][q[0][1]], tuple(q[1:]))
+                        if sel is not None:
+                            push_op(sel[0], sel[1])
+                        else:
+                            for o in rv[2]:
+                                push_op(o)
                         if "adt" in rv[1]:
                             out.append(("agg", rv[1]["adt"], rv[1]["variant"]))
                     elif k == "disc":
@@ -1671,6 +1711,10 @@ class Body:
             while changed:
                 changed = False
                 for i, j, p, rv, _ in assigns:
+                    # (`let ended = !matches!(..)`: the negation of a flag is a flag)
+                    if not p[1] and (p[0], -1) in rel and rv[0] == "un" and rv[1] == "Not" and rv[2][0] in ("c", "m") and not rv[2][1][1] and (rv[2][1][0], -1) not in rel:
+                        rel.add((rv[2][1][0], -1))
+                        changed = True
                     if p[1] or (p[0], -1) not in rel or rv[0] != "use" or rv[1][0] not in ("c", "m"):
                         continue
                     src = rv[1][1]
@@ -1696,6 +1740,9 @@ class Body:
             while changed:
                 changed = False
                 for i, j, p, rv, _ in assigns:
+                    if not p[1] and (p[0], -1) in rel and (p[0], -1) not in fl and rv[0] == "un" and rv[1] == "Not" and rv[2][0] in ("c", "m") and not rv[2][1][1] and (rv[2][1][0], -1) in fl:
+                        fl.add((p[0], -1))
+                        changed = True
                     if p[1] or (p[0], -1) not in rel or (p[0], -1) in fl or rv[0] != "use" or rv[1][0] not in ("c", "m"):
                         continue
                     src = rv[1][1]
@@ -1756,6 +1803,8 @@ class Body:
                     d[(loc, -1)] = d[(rv[1][1][0], rv[1][1][1][0][1])]
                 elif rv[0] == "use" and rv[1][0] in ("c", "m") and not rv[1][1][1] and (rv[1][1][0], -1) in d:
                     d[(loc, -1)] = d[(rv[1][1][0], -1)]
+                elif rv[0] == "un" and rv[1] == "Not" and rv[2][0] in ("c", "m") and not rv[2][1][1] and d.get((rv[2][1][0], -1)) in (0, 1, True, False):
+                    d[(loc, -1)] = 0 if d[(rv[2][1][0], -1)] else 1
                 else:
                     d.pop((loc, -1), None)
             else:
